@@ -50,9 +50,12 @@ static inline std::uint64_t bswap(std::uint64_t x) { return __builtin_bswap64(x)
 
 // single-word publication (C19): count the stores to a permutation word during one operation
 static int g_perm_stores = 0;
+// publication order inside border_node::insert_lv_at: (object, address) of every store, in order
+static std::vector<std::pair<int, const volatile void*>> g_store_log;
 #ifdef YAKUSHIMA_VERIF
-static void cnt_post(int kind, int obj, const volatile void*, std::uint64_t, int) {
+static void cnt_post(int kind, int obj, const volatile void* addr, std::uint64_t, int) {
     if (kind == yakushima::verif::k_store && obj == yakushima::verif::o_perm) ++g_perm_stores;
+    if (kind == yakushima::verif::k_store) g_store_log.emplace_back(obj, addr);
 }
 static yakushima::verif::hooks g_cnt_hooks{nullptr, cnt_post, nullptr};
 #endif
@@ -117,6 +120,38 @@ int main(int argc, char** argv) {
                 auto w = rd();
                 permutation pm{w};
                 out << hex(pm.get_empty_slot());
+            } else if (op == "publish") {
+                // perm publish <n> <klen> <rank> : a border with n entries in slots 0..n-1; insert_lv_at(slot n, a key of
+                // klen bytes, rank): the permutation word must be stored AFTER the entry (its link_or_value word) is
+                // in place, so that a reader who sees the new ordering finds the entry
+                auto n = rd(), klen = rd(), rank = rd();
+                auto* b = new border_node();
+                b->init_border();
+                for (std::uint64_t i = 0; i < n; ++i) {
+                    b->set_key_slice_at(i, bswap(0x0100000000000000ULL * (i + 1)));
+                    b->set_key_length_at(i, 1);
+                    b->get_lv_at(i)->set_value(reinterpret_cast<value*>(0x1000 + 8 * i), nullptr);
+                    b->get_permutation().insert_rank(i, i);
+                }
+                std::string key(klen, 'k');
+                g_store_log.clear();
+                b->insert_lv_at(n, std::string_view(key), reinterpret_cast<value*>(0x2000), nullptr, rank);
+                std::ptrdiff_t last_lv = -1, perm_at = -1;
+                for (std::size_t i = 0; i < g_store_log.size(); ++i) {
+                    if (g_store_log[i].first == yakushima::verif::o_lv &&
+                        g_store_log[i].second == static_cast<const volatile void*>(b->get_lv_at(n)))
+                        last_lv = static_cast<std::ptrdiff_t>(i);
+                    if (g_store_log[i].first == yakushima::verif::o_perm) {
+                        // the word of THIS border (a new next-layer border has its own)
+                        permutation& pp = b->get_permutation();
+                        if (g_store_log[i].second == static_cast<const volatile void*>(&pp) ||
+                            reinterpret_cast<std::uintptr_t>(g_store_log[i].second) - reinterpret_cast<std::uintptr_t>(&pp) < sizeof(permutation))
+                            perm_at = static_cast<std::ptrdiff_t>(i);
+                    }
+                }
+                out << "pub=" << ((last_lv >= 0 && perm_at > last_lv) ? "ok" : (perm_at < 0 || last_lv < 0 ? "unseen" : "early"))
+                    << " cnk=" << static_cast<int>(b->get_permutation_cnk());
+                // (the border and a possibly created next layer are left to the process exit)
             } else if (op == "split") {
                 auto n = rd();
                 permutation pm{};
